@@ -71,6 +71,26 @@ def r04_4(ctx):
             dflt = defs[0].args[1] if len(defs[0].args) > 1 else None
             good = good and isinstance(dflt, ast.Constant) and dflt.value is None
         ctx.ob('R04.4', 'reaper:gone-owner-is-an-owner-that-exited', good, je, c, detail)
+    # an unfinished job whose owner is gone is failed whatever the exit status was
+    fails = [n for (n, c) in q.calls(je, lambda t: t.endswith('.on_job_process_lost') or t.endswith('._set_terminated'))]
+    heads = {x.id for x in cfg.where(lambda x: x.kind == 'for')}
+    for (fi, n, c) in callers:
+        if fi is not je:
+            continue
+        jobx = ast.unparse(c.args[0])
+        unfinished = q.outcome_edges(je, jobx + '.ready()', False)
+        gone = q.outcome_edges(je, q.norm_guard(je, c.args[1], True)[0], True)
+        # nodes reached after both outcomes within one iteration
+        after_gone = cfg.reach([b for (a, b, l) in gone], block_nodes=heads, include_src=True, skip_labels=('x',))
+        starts = [b for (a, b, l) in unfinished if a in after_gone or b in after_gone]
+        r = cfg.reach(starts, block_nodes={x.id for x in fails}, include_src=True, skip_labels=('x',))
+        ok = bool(starts) and not (r & heads) and cfg.exit.id not in r
+        w = None if ok else cfg.path(starts, list((r & heads) | ({cfg.exit.id} & r)),
+                                     block_nodes={x.id for x in fails}, skip_labels=('x',))
+        ctx.ob('R04.4', 'reaper:unfinished-job-with-gone-owner-is-always-failed', ok, je, c,
+               'after `owner gone` and `not job.ready()` every path reaches on_job_process_lost or _set_terminated '
+               '(whatever the exit status)' if ok else
+               'some exit statuses leave the unfinished job of a dead worker unresolved', path=w)
     # cleaned only receives exited workers
     adds = [(n, t) for (n, t, v) in q.assigns(je, lambda t: t.startswith('cleaned['))]
     q.need(adds, '_join_exited_workers does not fill `cleaned`')
@@ -197,6 +217,9 @@ def run(ctx):
     r04_5(ctx)
     r04_6(ctx)
     r04_7(ctx)
+    # the loss must still be reported while the pool shuts down: the drain loop of the result handler
+    from .c07 import r07_3
+    r07_3(ctx)
 
 
 _P = 'billiard/pool.py'
